@@ -19,15 +19,15 @@ SIDE_NOTE = "stateful stream: each case starts with a reset op; non-trivial = th
 PIPE_RULE = "abstract cases (service configuration, Via/Route/Record-Route stacks, dialogs, TCP connections) rendered to bytes and pushed through the real pipeline inside the real loop goroutine; predictions derived from the abstract case are checked on the implementation; non-trivial = message decoded and processed; distinct by op line"
 
 PROPS = {
-    "C05": {"lean": ["C05"], "expected": ["K05"], "also": ["C19"], "streams": [{"name": "rr", "gen": "rr"}, {"name": "res", "gen": "res"}],
+    "C05": {"lean": ["C05"], "expected": ["K05", "Globals"], "also": ["C19"], "streams": [{"name": "rr", "gen": "rr"}, {"name": "res", "gen": "res"}],
             "rule": "exhaustive add/remove/dispatch sequences (canonical address order) plus seeded random histories on the real RoundRobinBackend; " + SIDE_NOTE},
-    "C18": {"lean": ["C18"], "expected": ["Routes", "K18"], "streams": [{"name": "route", "gen": "route"}],
+    "C18": {"lean": ["C18"], "expected": ["Routes", "K18", "Globals"], "streams": [{"name": "route", "gen": "route"}],
             "rule": "exhaustive route tables over the pattern universe x all hosts, each lookup repeated 50 times, plus random larger tables; " + SIDE_NOTE},
-    "C19": {"lean": ["C19"], "expected": ["K19"], "streams": [{"name": "res", "gen": "res"}],
+    "C19": {"lean": ["C19"], "expected": ["K19", "Globals"], "streams": [{"name": "res", "gen": "res"}],
             "rule": "exhaustive and random resolution-outcome histories fed to addressResolved with real UDP/TCP backends; " + SIDE_NOTE},
-    "C15": {"lean": ["C15"], "expected": ["K15"], "also": ["C04"], "streams": [{"name": "pins", "gen": "pins"}, {"name": "pipe", "gen": "pipe", "args": {"focus": "dialogs"}}],
+    "C15": {"lean": ["C15"], "expected": ["K15", "Globals"], "also": ["C04"], "streams": [{"name": "pins", "gen": "pins"}, {"name": "pipe", "gen": "pipe", "args": {"focus": "dialogs"}}],
             "rule": "seeded pin/lookup/terminate/wait histories on the real DialogBasedBackend under a virtual clock; " + SIDE_NOTE},
-    "C20": {"lean": ["C20"], "expected": ["K20"], "streams": [{"name": "send", "gen": "send"}],
+    "C20": {"lean": ["C20"], "expected": ["K20", "Globals"], "streams": [{"name": "send", "gen": "send"}],
             "rule": "exhaustive fault patterns: cached connection script x reconnectable path x listener up/down per message, sequences of 1-3 messages, for TCPClientTransport, FailOverClientTransport and TCPBackend; " + SIDE_NOTE},
     "C01": {"lean": ["C01"], "expected": ["Tables", "Globals"], "also": ["C11"],
             "streams": [{"name": "pipe", "gen": "pipe"}, {"name": "frame", "gen": "frame", "args": {"focus": "frame"}}],
@@ -36,14 +36,14 @@ PROPS = {
             "rule": PIPE_RULE},
     "C03": {"lean": ["C03"], "expected": ["Globals"], "streams": [{"name": "pipe", "gen": "pipe", "args": {"focus": "requests"}}],
             "rule": PIPE_RULE},
-    "C04": {"lean": ["C04"], "also": ["C15"],
-            "streams": [{"name": "pipe", "gen": "pipe", "args": {"focus": "dialogs"}}, {"name": "pins", "gen": "pins"}],
+    "C04": {"lean": ["C04"], "expected": ["Globals"], "also": ["C15", "C07"],
+            "streams": [{"name": "pipe", "gen": "pipe", "args": {"focus": "dialogs"}}, {"name": "pins", "gen": "pins"}, {"name": "udpwire", "gen": "frame", "args": {"focus": "udpwire"}}],
             "rule": PIPE_RULE},
     "C06": {"lean": ["C06"], "expected": ["K06", "Globals"], "streams": [{"name": "pipe", "gen": "pipe", "args": {"focus": "requests"}}],
             "rule": PIPE_RULE},
-    "C07": {"lean": ["C07"], "expected": ["Wiring", "Ctors", "K07"], "streams": [{"name": "pipe", "gen": "pipe", "args": {"focus": "requests"}}, {"name": "pipe2", "gen": "pipe", "args": {"focus": "responses"}}, {"name": "wire", "gen": "wire", "args": {"focus": "c07"}}, {"name": "udpwire", "gen": "frame", "args": {"focus": "udpwire"}}], "also": ["C12", "C02"],
+    "C07": {"lean": ["C07"], "expected": ["Wiring", "Ctors", "K07", "Globals"], "streams": [{"name": "pipe", "gen": "pipe", "args": {"focus": "requests"}}, {"name": "pipe2", "gen": "pipe", "args": {"focus": "responses"}}, {"name": "wire", "gen": "wire", "args": {"focus": "c07"}}, {"name": "udpwire", "gen": "frame", "args": {"focus": "udpwire"}}], "also": ["C12", "C02"],
             "rule": PIPE_RULE},
-    "C12": {"lean": ["C12"], "expected": ["K12"], "streams": [{"name": "pipe", "gen": "pipe", "args": {"focus": "tcp"}}],
+    "C12": {"lean": ["C12"], "expected": ["K12", "Globals"], "streams": [{"name": "pipe", "gen": "pipe", "args": {"focus": "tcp"}}],
             "rule": PIPE_RULE},
     "C13": {"lean": ["C13"], "expected": ["Globals"], "streams": [{"name": "pipe", "gen": "pipe", "args": {"focus": "requests"}}],
             "rule": PIPE_RULE},
@@ -51,13 +51,13 @@ PROPS = {
             "rule": PIPE_RULE},
     "C16": {"lean": ["C16"], "expected": ["Tables", "K16", "Globals"], "streams": [{"name": "dialog", "gen": "dialog"}],
             "rule": "exhaustive assignments of Call-ID, tags and URIs from small alphabets x both orientations x request/response x decorations, plus random long identifiers; oracle: bijection between abstract dialog keys and implementation identifiers; non-trivial = identifier produced"},
-    "C11": {"lean": ["C11"], "expected": ["Reader"], "streams": [{"name": "frame", "gen": "frame", "args": {"focus": "frame"}}],
+    "C11": {"lean": ["C11"], "expected": ["Reader", "Globals"], "streams": [{"name": "frame", "gen": "frame", "args": {"focus": "frame"}}],
             "rule": "generated message sequences under scripted segmentations (exhaustive single/double cuts of short streams, random multi-cuts down to 1-byte segments) through ParseMessage on one bufio.Reader; non-trivial = at least one message extracted; distinct by op line"},
-    "C10": {"lean": ["C10"], "expected": ["Reader"], "streams": [{"name": "udpbuf", "gen": "frame", "args": {"focus": "udpbuf"}}, {"name": "pool", "gen": "pool"}, {"name": "udpwire", "gen": "frame", "args": {"focus": "udpwire"}}],
+    "C10": {"lean": ["C10"], "expected": ["Reader", "Globals"], "streams": [{"name": "udpbuf", "gen": "frame", "args": {"focus": "udpbuf"}}, {"name": "pool", "gen": "pool"}, {"name": "udpwire", "gen": "frame", "args": {"focus": "udpwire"}}],
             "rule": "every datagram parsed through the real UDP parse loop in a clean and in a dirty 64 KiB buffer (cut / over- / under-declared datagrams), plus exhaustive and random Alloc/Free histories on the real pool; non-trivial = datagram accepted; distinct by op line"},
-    "C08": {"lean": ["C08"], "expected": ["Inventory"], "streams": [{"name": "hostile", "gen": "hostile"}],
+    "C08": {"lean": ["C08"], "expected": ["Inventory", "Globals"], "also": ["C10"], "streams": [{"name": "hostile", "gen": "hostile"}, {"name": "udpwire", "gen": "frame", "args": {"focus": "udpwire"}}],
             "rule": "mutations of valid requests/responses and hostile field values (absurd Content-Length, bracket-only hosts, thousands of headers/parameters, truncations, garbage): accept/reject compared with the model, robustness oracle (no panic, bounded allocation) on parse and on the whole pipeline, liveness probes after hostile input; non-trivial = input accepted by the parser; distinct by op line"},
-    "C09": {"lean": ["C09"], "expected": ["Wiring", "Locks"], "also": ["C10"], "streams": [{"name": "race", "gen": "race", "race": True, "timeout": 900}, {"name": "udpwire", "gen": "frame", "args": {"focus": "udpwire"}}],
+    "C09": {"lean": ["C09"], "expected": ["Wiring", "Locks", "Globals"], "also": ["C10"], "streams": [{"name": "race", "gen": "race", "race": True, "timeout": 900}, {"name": "udpwire", "gen": "frame", "args": {"focus": "udpwire"}}],
             "rule": "stress runs of several real Proxy loops of one service fed concurrently with membership changes, pool, transport table and resolver traffic under the Go race detector, GOMAXPROCS varied; every request must reach exactly one backend; non-trivial = run under load (>= 100 requests); distinct by (listeners, seed, GOMAXPROCS)"},
     "C14": {
         "lean": ["C14"], "expected": ["Tables", "Globals"],
